@@ -232,6 +232,13 @@ class World:
             if ok:
                 self._learn_scan(P, ret)
             return
+        if f == "rmtoken":
+            t = op.get("token")
+            if ret.get("done") and t in self.toks:
+                del self.toks[t]
+                for o in self.objs.values():
+                    if o.tok == t: o.alive = False
+            return
         if f == "C_InitToken":
             if ok:
                 ref = op.get("out") or op.get("slot")
